@@ -277,7 +277,7 @@ class Gen:
             vs = [self.value(tx["it"], b, None if tmpl is None else tmpl[i], False, True) for i in range(n)]
             inp = {"sh": sh, "it": [v[0] for v in vs]}
             it = tx["it"]
-            if (it["k"] == "sc" and like is None and not _inarr and self.dims_p and rng.random() < self.dims_p
+            if (it["k"] == "sc" and like is None and not _inarr and not _noxobj and self.dims_p and rng.random() < self.dims_p
                     and any(d < 0 for d in tx["sh"])):
                 # built from its dimensions: the items are left unspecified (whatever the memory holds)
                 dims = tuple(int(d) for d, decl in zip(sh, tx["sh"]) if decl < 0)
